@@ -243,7 +243,7 @@ pub fn judge(sc: &Scenario, cfg: &Cfg, rc: &mut RCase, class: &str) -> Result<Ou
 pub fn check_case(tape: &[u16], rc: &mut RCase) -> Result<(), Failure> {
     let mut t = Tape::new(tape);
     let cfg = gen_cfg(&mut t);
-    let opts = ROpts { allow_refs: false, ..ROpts::default() };
+    let opts = ROpts { allow_refs: false, allow_extras: true, ..ROpts::default() };
     let sc = rgen::generate(&mut t, &opts);
     let o = judge(&sc, &cfg, rc, "random")?;
     let key = hash64(&format!("{}{:?}{:?}", sc.source(), sc.store, cfg));
@@ -278,7 +278,7 @@ pub fn check_aimed(tape: &[u16], rc: &mut RCase) -> Result<(), Failure> {
         collateral: None,
             references: vec![],
         store: vec![rgen::SUtxo { id: 0, party: 0, lovelace: funding, token: 0 }],
-        n_parties: 2,
+        n_parties: 2, extras: vec![],
     };
     // first resolution with ample funds to learn the fee level
     let probe = mk(1 << 40);
